@@ -384,6 +384,68 @@ pub mod std {
         }
     }
 
+    pub mod time {
+        pub use ::std::time::*;
+        /// `Instant` on the simulated clock: a fixed real base plus simulated nanoseconds, so that
+        /// all arithmetic is the real type's.
+        #[derive(Clone, Copy, PartialEq, Eq, PartialOrd, Ord, Hash, Debug)]
+        pub struct Instant(::std::time::Instant);
+        fn base() -> ::std::time::Instant {
+            static BASE: ::std::sync::OnceLock<::std::time::Instant> = ::std::sync::OnceLock::new();
+            *BASE.get_or_init(::std::time::Instant::now)
+        }
+        impl Instant {
+            pub fn now() -> Instant {
+                if crate::rt::enabled() {
+                    Instant(base() + Duration::from_nanos(crate::rt::now_ns()))
+                } else {
+                    Instant(::std::time::Instant::now())
+                }
+            }
+            pub fn elapsed(&self) -> Duration {
+                Instant::now().0.saturating_duration_since(self.0)
+            }
+            pub fn duration_since(&self, earlier: Instant) -> Duration {
+                self.0.saturating_duration_since(earlier.0)
+            }
+            pub fn saturating_duration_since(&self, earlier: Instant) -> Duration {
+                self.0.saturating_duration_since(earlier.0)
+            }
+            pub fn checked_duration_since(&self, earlier: Instant) -> Option<Duration> {
+                self.0.checked_duration_since(earlier.0)
+            }
+            pub fn checked_add(&self, d: Duration) -> Option<Instant> {
+                self.0.checked_add(d).map(Instant)
+            }
+            pub fn checked_sub(&self, d: Duration) -> Option<Instant> {
+                self.0.checked_sub(d).map(Instant)
+            }
+        }
+        impl ::std::ops::Add<Duration> for Instant {
+            type Output = Instant;
+            fn add(self, d: Duration) -> Instant {
+                Instant(self.0 + d)
+            }
+        }
+        impl ::std::ops::Sub<Duration> for Instant {
+            type Output = Instant;
+            fn sub(self, d: Duration) -> Instant {
+                Instant(self.0 - d)
+            }
+        }
+        impl ::std::ops::Sub<Instant> for Instant {
+            type Output = Duration;
+            fn sub(self, o: Instant) -> Duration {
+                self.0.saturating_duration_since(o.0)
+            }
+        }
+        impl ::std::ops::AddAssign<Duration> for Instant {
+            fn add_assign(&mut self, d: Duration) {
+                self.0 += d;
+            }
+        }
+    }
+
     pub mod process {
         pub use ::std::process::*;
         pub fn exit(code: i32) -> ! {
@@ -415,6 +477,7 @@ pub mod std {
                     Err(crate::io_err("EPIPE"))
                 }
                 Some((k, _)) if k == "EINTR" => Err(crate::io_err("EINTR")),
+                Some((k, _)) if k == "EAGAIN" => Err(crate::io_err("EAGAIN")),
                 Some((k, arg)) if k == "short" => {
                     let n = (arg as usize).clamp(1, buf.len().max(1)).min(buf.len());
                     ::std::io::stdout().write_all(&buf[..n])?;
@@ -519,6 +582,13 @@ pub mod std {
             match crate::fault("stdin.read", "") {
                 Some((k, _)) if k == "EINTR" => Err(crate::io_err("EINTR")),
                 Some((k, _)) if k == "EIO" => Err(crate::io_err("EIO")),
+                Some((k, arg)) if k == "stall" => {
+                    // the producer pauses (for `arg` simulated seconds) before the next bytes arrive
+                    crate::rt::sleep_ns(arg.saturating_mul(1_000_000_000));
+                    let r = ::std::io::stdin().read(buf)?;
+                    crate::note(&format!("stdin.read -> {r} (after a stall)"));
+                    Ok(r)
+                }
                 Some((k, arg)) if k == "short" => {
                     let n = (arg as usize).clamp(1, buf.len().max(1)).min(buf.len());
                     let r = ::std::io::stdin().read(&mut buf[..n])?;
@@ -689,8 +759,9 @@ pub mod std {
             }
         }
 
-        pub fn sleep(_d: ::std::time::Duration) {
+        pub fn sleep(d: ::std::time::Duration) {
             crate::point("", "thread.sleep");
+            crate::rt::sleep_ns(d.as_nanos().min(u64::MAX as u128) as u64);
         }
         pub fn yield_now() {
             crate::point("", "thread.yield");
@@ -865,12 +936,12 @@ pub mod std {
             pub fn wait_timeout<'a, T>(
                 &self,
                 guard: MutexGuard<'a, T>,
-                _dur: ::std::time::Duration,
+                dur: ::std::time::Duration,
             ) -> LockResult<(MutexGuard<'a, T>, WaitTimeoutResult)> {
                 let m = guard.m;
                 let r = res_of(&self.res);
                 drop(guard);
-                let to = crate::rt::block_timed(r, &format!("condvar.wait_timeout c{r}"));
+                let to = crate::rt::block_timed(r, &format!("condvar.wait_timeout c{r}"), dur.as_nanos().min(u64::MAX as u128) as u64);
                 match m.lock() {
                     Ok(g) => Ok((g, WaitTimeoutResult(to))),
                     Err(e) => Err(PoisonError::new((e.into_inner(), WaitTimeoutResult(to)))),
@@ -1298,7 +1369,8 @@ pub mod std {
                         crate::rt::block(r, &format!("chan.recv.blocked ch{r}"));
                     }
                 }
-                pub fn recv_timeout(&self, _d: ::std::time::Duration) -> Result<T, RecvTimeoutError> {
+                pub fn recv_timeout(&self, d: ::std::time::Duration) -> Result<T, RecvTimeoutError> {
+                    let deadline = crate::rt::now_ns().saturating_add(d.as_nanos().min(u64::MAX as u128) as u64);
                     let r = res_of(&self.0.res);
                     loop {
                         crate::point(&format!("ch{r}"), &format!("chan.recv_timeout ch{r}"));
@@ -1311,7 +1383,8 @@ pub mod std {
                         if self.0.senders.load(O::SeqCst) == 0 {
                             return Err(RecvTimeoutError::Disconnected);
                         }
-                        if crate::rt::block_timed(r, &format!("chan.recv_timeout.blocked ch{r}")) {
+                        let left = deadline.saturating_sub(crate::rt::now_ns());
+                        if left == 0 || crate::rt::block_timed(r, &format!("chan.recv_timeout.blocked ch{r}"), left) {
                             return Err(RecvTimeoutError::Timeout);
                         }
                     }
